@@ -18,7 +18,7 @@ PRESENTATION = [[], ["--with-derive-hash", "--with-derive-partialeq", "--with-de
 
 def feature_group(rec):
     f = rec.features
-    for special in ("complex-long-double", "over-aligned-typedef", "member-packed"):
+    for special in ("complex-long-double", "over-aligned-typedef", "member-packed", "vector8"):
         if special in f:
             return special
     if "packed" in f or "pragma-pack" in f:
@@ -57,6 +57,7 @@ def run(ck):
     if proofs:
         vlib.coq_check_properties(ck, "theories/C02/Properties.v")
         vlib.coq_check_properties(ck, "theories/C02/UnionProperties.v")
+        vlib.coq_check_properties(ck, "theories/C02/LowerProperties.v")
     else:
         ck.obligation("theories/C02/Properties.v", False, "missing")
         ck.broken("proof", "theories/C02/Properties.v", "file missing")
@@ -121,7 +122,15 @@ def run(ck):
                                {"name": "t", "decl": "char t", "bitfield": None, "anon": False}]
                 rec.features = {feat}
                 vecs.append(rec)
-        batches.append((-4, False, vecs, "typedef float v4f __attribute__((vector_size(16)));\ntypedef int aint16 __attribute__((aligned(16)));\n" + "\n".join(x.text() for x in vecs)))
+        # 8-byte vectors of 4-byte lanes: C alignment 8, Rust spelling [f32; 2] (alignment 4), and no forced padding at alignment 8:
+        # the known finding that C02/LowerProperties.v lowered_align8_refuted states
+        for gap in (1, 3, 4, 5):
+            rec = e2e.Rec("U%d" % gap)
+            rec.members = [{"name": "pre", "decl": "char pre[%d]" % gap, "bitfield": None, "anon": False}, {"name": "v", "decl": "v2f v", "bitfield": None, "anon": False},
+                           {"name": "t", "decl": "char t", "bitfield": None, "anon": False}]
+            rec.features = {"vector8"}
+            vecs.append(rec)
+        batches.append((-4, False, vecs, "typedef float v4f __attribute__((vector_size(16)));\ntypedef float v2f __attribute__((vector_size(8)));\ntypedef int aint16 __attribute__((aligned(16)));\n" + "\n".join(x.text() for x in vecs)))
         batches.append((-2, True, named, "#include <stdint.h>\n#include <stddef.h>\n#include <sys/types.h>\n#include <wchar.h>\n#include <uchar.h>\n#include <signal.h>\n" + "\n".join(x.text() for x in named)))
         for b in range(10 if quick else 150):
             plain = b % 5 != 4 and b % 5 != 3
